@@ -183,11 +183,26 @@ func checkHelpers(e *Env, carrier int, body []byte, evals *int) string {
 	// NewByteReader over a fragmenting reader
 	*evals++
 	if len(body) <= 4096 {
-		br := utils.NewByteReader(&fragReader{b: append([]byte(nil), body...), plan: []int{1, 2, 1}})
-		for i := 0; i < len(body); i++ {
-			b, err := br.ReadByte()
-			if err != nil || b != body[i] {
-				return fmt.Sprintf("ByteReader(io.Reader): byte %d = 0x%02x err=%v, want 0x%02x", i, b, err, body[i])
+		// reader behaviours: short reads, an empty read, the last byte delivered together with io.EOF
+		for variant := 0; variant < 3; variant++ {
+			fr := &fragReader{b: append([]byte(nil), body...), plan: []int{1, 2, 1}}
+			what := "short reads"
+			switch variant {
+			case 1:
+				fr.eofWith, what = true, "last byte delivered together with io.EOF"
+			case 2:
+				fr.plan, what = []int{1, 0, 1}, "an empty (0, nil) read in between"
+			}
+			br := utils.NewByteReader(fr)
+			for i := 0; i < len(body); i++ {
+				b, err := br.ReadByte()
+				// io.ByteReader: "If ReadByte returns an error, no input byte was consumed, and the returned byte value is undefined"
+				if err != nil || b != body[i] {
+					return fmt.Sprintf("ByteReader(io.Reader): %s: byte %d of %d = 0x%02x err=%v, want 0x%02x", what, i, len(body), b, err, body[i])
+				}
+			}
+			if _, err := br.ReadByte(); err != io.EOF {
+				return fmt.Sprintf("ByteReader(io.Reader): %s: after the %d content bytes ReadByte returned err=%v instead of io.EOF", what, len(body), err)
 			}
 		}
 	}
